@@ -33,25 +33,105 @@ Qed.
 Definition spec_version (vs : Z * Z) : Z * Z :=
   if le_ver (3, 8) vs then (3, 8) else if le_ver (3, 7) vs then (3, 7) else (3, 3).
 
-(** the capped best version, computed over the generated SUPPORTED_SERVER_VERSIONS, is the
-    specification's, for every server version at or above 3.3 *)
+Definition ltP (a b : Z * Z) : Prop := fst a < fst b \/ (fst a = fst b /\ snd a < snd b).
+Definition leP (a b : Z * Z) : Prop := fst a < fst b \/ (fst a = fst b /\ snd a <= snd b).
+
+Lemma lt_ver_spec a b : BoolSpec (ltP a b) (~ ltP a b) (lt_ver a b).
+Proof.
+  unfold lt_ver, ltP. destruct (Z.ltb_spec (fst a) (fst b)), (Z.eqb_spec (fst a) (fst b)), (Z.ltb_spec (snd a) (snd b));
+    cbn; constructor; lia.
+Qed.
+Lemma le_ver_spec a b : BoolSpec (leP a b) (~ leP a b) (le_ver a b).
+Proof.
+  unfold le_ver. destruct (lt_ver_spec b a) as [H|H]; cbn; constructor; unfold ltP, leP in *; lia.
+Qed.
+
+Definition bv_step (vs : Z * Z) (acc : option (Z * Z)) (v : Z * Z) : option (Z * Z) :=
+  if le_ver v vs then match acc with Some m => if lt_ver m v then Some v else Some m | None => Some v end else acc.
+
+Lemma bv_fold vs l : forall acc,
+  match fold_left (bv_step vs) l acc with
+  | Some m => (In m l /\ leP m vs \/ acc = Some m) /\
+              (forall v, In v l -> leP v vs -> leP v m) /\
+              (forall a, acc = Some a -> leP a m)
+  | None => acc = None /\ forall v, In v l -> ~ leP v vs
+  end.
+Proof.
+  induction l as [|v l IH]; intros acc; cbn [fold_left].
+  - destruct acc as [a|].
+    + split; [right; reflexivity|]. split; [intros ? []|]. intros a' E; inversion E; subst. unfold leP; lia.
+    + split; [reflexivity|intros ? []].
+  - specialize (IH (bv_step vs acc v)). destruct (fold_left (bv_step vs) l (bv_step vs acc v)) as [m|].
+    + destruct IH as (H1 & H2 & H3). unfold bv_step in H1, H3.
+      destruct (le_ver_spec v vs) as [Hv|Hv].
+      * destruct acc as [a|].
+        -- destruct (lt_ver_spec a v) as [Hav|Hav].
+           ++ split; [|split].
+              ** destruct H1 as [[Hi Hl]|E]; [left; split; [right; exact Hi|exact Hl]|].
+                 inversion E; subst m. left; split; [left; reflexivity|exact Hv].
+              ** intros v0 [<-|Hi] Hl; [apply H3; reflexivity|apply H2; assumption].
+              ** intros a0 E; inversion E; subst a0. specialize (H3 _ eq_refl). unfold leP, ltP in *; lia.
+           ++ split; [|split].
+              ** destruct H1 as [[Hi Hl]|E]; [left; split; [right; exact Hi|exact Hl]|right; exact E].
+              ** intros v0 [<-|Hi] Hl; [|apply H2; assumption].
+                 specialize (H3 _ eq_refl). unfold leP, ltP in *; lia.
+              ** exact H3.
+        -- split; [|split].
+           ++ destruct H1 as [[Hi Hl]|E]; [left; split; [right; exact Hi|exact Hl]|].
+              inversion E; subst m. left; split; [left; reflexivity|exact Hv].
+           ++ intros v0 [<-|Hi] Hl; [apply H3; reflexivity|apply H2; assumption].
+           ++ intros a0 E; discriminate.
+      * split; [|split].
+        -- destruct H1 as [[Hi Hl]|E]; [left; split; [right; exact Hi|exact Hl]|right; exact E].
+        -- intros v0 [<-|Hi] Hl; [contradiction|apply H2; assumption].
+        -- exact H3.
+    + destruct IH as [E H]. unfold bv_step in E. destruct (le_ver_spec v vs) as [Hv|Hv].
+      * destruct acc as [a|]; [destruct (lt_ver a v)|]; discriminate.
+      * split; [exact E|]. intros v0 [<-|Hi]; [exact Hv|apply H; exact Hi].
+Qed.
+
+Lemma best_version_max vs :
+  match best_version vs with
+  | Some m => In m SUPPORTED_SERVER_VERSIONS /\ leP m vs /\
+              forall v, In v SUPPORTED_SERVER_VERSIONS -> leP v vs -> leP v m
+  | None => forall v, In v SUPPORTED_SERVER_VERSIONS -> ~ leP v vs
+  end.
+Proof.
+  unfold best_version. change (fun acc v => if le_ver v vs then match acc with Some m => if lt_ver m v then Some v else Some m | None => Some v end else acc) with (bv_step vs).
+  pose proof (bv_fold vs SUPPORTED_SERVER_VERSIONS None) as H.
+  destruct (fold_left (bv_step vs) SUPPORTED_SERVER_VERSIONS None) as [m|].
+  - destruct H as ([[Hi Hl]|E] & H2 & _); [|discriminate]. auto.
+  - apply H.
+Qed.
+
 Lemma best_version_spec maj min :
   0 <= maj -> 0 <= min -> le_ver (3, 3) (maj, min) = true ->
   exists v0, best_version (maj, min) = Some v0 /\
              (if lt_ver MAX_CLIENT_VERSION v0 then MAX_CLIENT_VERSION else v0) = spec_version (maj, min).
 Proof.
-  intros Hmaj Hmin H33. unfold best_version, spec_version, SUPPORTED_SERVER_VERSIONS, MAX_CLIENT_VERSION.
-  unfold le_ver, lt_ver in *. cbn [fold_left fst snd] in *.
-  repeat match goal with
-         | |- context [?a <? ?b] => destruct (Z.ltb_spec a b)
-         | |- context [?a =? ?b] => destruct (Z.eqb_spec a b)
-         | H : context [?a <? ?b] |- _ => destruct (Z.ltb_spec a b)
-         | H : context [?a =? ?b] |- _ => destruct (Z.eqb_spec a b)
-         end; cbn in *; try discriminate; try lia; eexists; split; try reflexivity; cbn;
-    repeat match goal with
-           | |- context [?a <? ?b] => destruct (Z.ltb_spec a b)
-           | |- context [?a =? ?b] => destruct (Z.eqb_spec a b)
-           end; cbn; try reflexivity; try lia.
+  intros Hmaj Hmin H33. destruct (le_ver_spec (3, 3) (maj, min)) as [L33|]; [|discriminate]. clear H33.
+  pose proof (best_version_max (maj, min)) as H.
+  destruct (best_version (maj, min)) as [m|].
+  2:{ exfalso. apply (H (3, 3)); [vm_compute; tauto|exact L33]. }
+  destruct H as (Hin & Hle & Hmax). exists m. split; [reflexivity|].
+  assert (In (3, 3) SUPPORTED_SERVER_VERSIONS /\ In (3, 7) SUPPORTED_SERVER_VERSIONS /\ In (3, 8) SUPPORTED_SERVER_VERSIONS) as (I33 & I37 & I38)
+    by (vm_compute; tauto).
+  pose proof (Hmax _ I33) as M33. pose proof (Hmax _ I37) as M37. pose proof (Hmax _ I38) as M38.
+  unfold spec_version, MAX_CLIENT_VERSION.
+  destruct (le_ver_spec (3, 8) (maj, min)) as [L38|L38].
+  - specialize (M38 L38). destruct (lt_ver_spec (3, 8) m) as [G|G]; [reflexivity|].
+    destruct m as [a b]. unfold leP, ltP in *; cbn [fst snd] in *. f_equal; lia.
+  - destruct (le_ver_spec (3, 7) (maj, min)) as [L37|L37].
+    + specialize (M37 L37).
+      unfold SUPPORTED_SERVER_VERSIONS in Hin. cbn [In] in Hin.
+      repeat destruct Hin as [Hin|Hin]; try contradiction; subst m;
+        unfold leP, ltP in *; cbn [fst snd] in *; try (exfalso; lia);
+        (destruct (lt_ver_spec (3, 8) (3, 7)) as [G|G]; [unfold ltP in G; cbn in G; lia|reflexivity]).
+    + specialize (M33 L33).
+      unfold SUPPORTED_SERVER_VERSIONS in Hin. cbn [In] in Hin.
+      repeat destruct Hin as [Hin|Hin]; try contradiction; subst m;
+        unfold leP, ltP in *; cbn [fst snd] in *; try (exfalso; lia);
+        (destruct (lt_ver_spec (3, 8) (3, 3)) as [G|G]; [unfold ltP in G; cbn in G; lia|reflexivity]).
 Qed.
 
 Theorem version_negotiation : forall s maj min,
